@@ -67,3 +67,9 @@ M("c06-effective-neginf-at-shield", "C06", A, "AsyncIOBackend.current_effective_
   "            elif cancel_scope.shield:\n                deadline = -math.inf\n                break\n", ["R06-e"])
 M("c06-effective-skips-every-other-scope", "C06", A, "AsyncIOBackend.current_effective_deadline", "                cancel_scope = cancel_scope._parent_scope\n",
   "                cancel_scope = cancel_scope._parent_scope\n                if cancel_scope is not None and not cancel_scope.shield and not cancel_scope._cancel_called:\n                    cancel_scope = cancel_scope._parent_scope\n", ["R06-e"])
+
+# from seeded changes C06/c and C06/d (round 2): a fired deadline whose cancellation is not delivered
+M("c06-restart-shield-before-cancelled", "C06", A, "CancelScope._restart_cancellation",
+  "            if scope._cancel_called:\n                if scope._cancel_handle is None:\n                    scope._deliver_cancellation(scope)\n\n                break\n\n            # No point in looking beyond any shielded scope\n            if scope._shield:\n                break\n",
+  "            # No point in looking beyond any shielded scope\n            if scope._shield:\n                break\n\n            if scope._cancel_called:\n                if scope._cancel_handle is None:\n                    scope._deliver_cancellation(scope)\n\n                break\n", ["R06-f"])
+M("c06-delivery-forgets-retry", "C06", A, "CancelScope._deliver_cancellation", "            should_retry = True\n            if task._must_cancel:", "            if task._must_cancel:", ["R06-f"])
